@@ -130,6 +130,19 @@ CLAIMS["C09"] = dict(
          "(Parameter(Result)) are covered because they can only come from PlanStep.result.",
     technique="who-may-construct / who-may-write scans + typestate dataflow on the partition protocol")
 
+CLAIMS["C16"] = dict(
+    level="other", engine="grammar-lalr",
+    text="Decides that the stored text of an embedded query is assembled from ALL tokens between the parentheses, IN ORDER, "
+         "from the characters the user wrote: raw_query derives every lexer token except balanced parentheses; every "
+         "raw_query action returns each RHS position exactly once in order (symbolic evaluation); every embedding action "
+         "passes p.raw_query[N] unmodified to tokens_to_string and stores it in query_str/if_query_str/query in order; no "
+         "token type admitted by raw_query has a value-rewriting lexer action; tokens_to_string appends every token value "
+         "once, unconditionally, and applies no transformation to the assembled text. Exhaustive over the 204+ raw-query "
+         "terminals, 33 embedding productions and all lexer actions. White-space reconstruction is NOT decided.",
+    note="Assumes sly hands the matched source text to token.value unless a lexer action changes it; whitespace/comment "
+         "differences are allowed by the property statement.",
+    technique="grammar terminal-coverage scan + symbolic evaluation of token-list actions + lexer-action effect scan")
+
 NA_PENDING = "check under construction in this session; not claimed until its rule module is committed"
 
 
